@@ -275,6 +275,9 @@ def run(ctx):
         ok = any(all(g.dominates(bi, r) for r in rets) for bi, t in g.calls("_format_budget"))
         ctx.ob("F-BUDGET-ALWAYS", "%s _format_task always formats the budget" % mod.split("::")[0], ok, "")
 
+    # kind(parse(format(sentence))) = sentence requires that the start of the sentence's term cannot be read as a budget
+    import tables
+    tables.rule_T_BUDGET_IDENT(ctx, tables.Tables(ctx), models=("enum", "lex"))
     ctx.undecided = ["kind(parse(format(v))) = kind(v) for every value (runs into value-dependent parsing, see C01)"]
     ctx.assumptions = ["Vec::is_empty / matches! semantics of std"]
     ctx.trusted = ["rustc HIR/MIR", "mirfacts driver", "python rule layer"]
